@@ -19,6 +19,7 @@ NAMES = [0, 1, 6, 7, 8, 10]  # "A","B","a1","a2","b1","ab"
 PATTERNS = [
     ("re", "a.*"), ("re", ".*1"), ("re", "[ab]1?"), ("re", "a1"), ("reflags", ("a.*", re.IGNORECASE)), ("re", "a"),
     ("fn", "startswith_a"), ("fn", "has_children"), ("fn", "never"), ("data", 6),
+    ("data", 12),    # a data object that is neither str nor callable: matched by identity (`node.data is match`)
 ]
 KS = [None, 1, 2, 3, 5]
 
@@ -93,6 +94,20 @@ def check_tree(ctx, out, spec, tag, rot, levelorder=False):
                     reqs.append({"op": "search", "q": "nodeId", "t": tj, "path": list(path), "did": d, "self": add_self})
                     pend.append((case, impl, f"node.find_all(data_id={d!r}, add_self={add_self}) at {list(path)}"))
                     out.count((tag, repr(spec), path, "id", d, add_self), nontriv)
+
+            # ... and by data object (positional `data` argument: the id is calculated by the tree)
+            objs = []
+            for n in nodes:
+                if not any(n.data is o for o in objs):
+                    objs.append(n.data)
+            for o in objs[:3]:
+                d = pool.canon_did(tree.calc_data_id(o))
+                for add_self in (False, True):
+                    impl = g(lambda: [adapter.ids(start.find_all(o, add_self=add_self), ser), i(start.find_first(o))])
+                    case = dict(q="nodeId", spec=spec, path=list(path), did=d, self=add_self, by="data", levelorder=levelorder)
+                    reqs.append({"op": "search", "q": "nodeId", "t": tj, "path": list(path), "did": d, "self": add_self})
+                    pend.append((case, impl, f"node.find_all({o!r}, add_self={add_self}) at {list(path)}"))
+                    out.count((tag, repr(spec), path, "data", d, add_self), nontriv)
 
     # index: observed order of the clone lists
     dids = []
@@ -220,6 +235,8 @@ CORPUS = [
     # a node named "a1"/"a" under an explicit data_id (name searches must not go through the data_id index), clones of
     # "a1" whose creation order differs from the document order in the level-order build
     [(0, [({"a": 6, "did": 4711}, []), (7, [(6, [])])]), (1, [(6, [])]), ({"a": 6, "did": "x"}, [])],
+    # int data objects 7 (twice) and 8 for the identity match
+    [(0, [(12, []), (13, [])]), (12, [(6, [])])],
     # node_id 7 vs int data 7 (data_id 7): node_id lookup wins
     [({"a": 0, "nid": 7}, []), (12, []), ({"a": 1, "did": 1001}, []), ({"a": 8, "did": "sid"}, [])],
 ]
